@@ -80,13 +80,13 @@ def parseWorld (t : List String) : World :=
 def causeOf : String → Option Cause
   | "remote-disc" => some .remoteDisc | "timeout" | "broken-link" | "none" | "malformed" => some .exchangeNone
   | "local-terminate" => some .terminateCb | "keyboard-interrupt" => some .keyboardInterrupt
-  | "ioerror" | "ioerror-persistent" => some .ioError | "key-agreement" => some .keyAgreementError
+  | "ioerror" => some .ioError | "ioerror-persistent" => some .ioErrorPersistent | "key-agreement" => some .keyAgreementError
   | "decryption" => some .decryptionError | "encryption" => some .encryptionError
   | "runtime-error" => some .otherException | _ => none
 
 def leaveName : Leave → String
   | .returns => "returns" | .raisesKeyboardInterrupt => "KeyboardInterrupt" | .raisesSystemExit => "SystemExit"
-  | .reraises => "reraises"
+  | .raisesIOError => "IOError" | .reraises => "reraises"
 def connectName : ConnectEnd → String
   | .returns => "returns" | .raisesSystemExit => "SystemExit" | .reraises => "reraises"
 
